@@ -387,12 +387,22 @@ unsafe fn write_all_sub_paths(
 /// Creates the full path, it's fine if it's already there as long as it's a directory.
 #[inline]
 unsafe fn mkdir_leaf(raw: *const u8, len: usize) -> core::result::Result<(), rusl::Error> {
-    // if we end on a slash we don't have to write the last part
-    if unsafe { raw.add(len - 1).read() } == b'/' {
-        return Ok(());
-    }
-    // We know the actual length is len + 1 and null terminated, try write full
+    // We know the actual length is len + 1 and null terminated
     let full = UnixStr::from_bytes_unchecked(core::slice::from_raw_parts(raw, len + 1));
+    // if we end on a slash we don't have to write the last part, it was written as a parent,
+    // or was already there: then it has to be a directory
+    if unsafe { raw.add(len - 1).read() } == b'/' {
+        let stat = rusl::unistd::stat(full)?;
+        return if Mode::from(stat.st_mode) & Mode::S_IFMT == Mode::S_IFDIR {
+            Ok(())
+        } else {
+            Err(rusl::Error {
+                msg: "Not a directory",
+                code: Some(Errno::ENOTDIR),
+            })
+        };
+    }
+    // try write full
     match rusl::unistd::mkdir(full, Mode::from(0o755)) {
         Ok(()) => Ok(()),
         Err(e) if e.code == Some(Errno::EEXIST) => {
